@@ -251,11 +251,17 @@ func TestVerif_C44(t *testing.T) {
 					bad = append(bad, "LoadIndex: "+err.Error())
 				} else {
 					// identical content is stored once; a further copy only where storeDuplicate asked for it
+					// (a save stores iff the blob was unknown when it was announced or storeDuplicate is set; which
+					// of several concurrent saves of one blob is announced first is the schedule's choice, so
+					// the bound must not depend on the order in which the saves returned: at most one copy for
+					// all plain saves together plus one per storeDuplicate save)
 					want := map[restic.BlobHandle]int{}
+					plain := map[restic.BlobHandle]bool{}
 					for _, a := range st.accepted {
-						if want[a.h] == 0 {
-							want[a.h] = 1
-						} else if a.dup {
+						if a.dup {
+							want[a.h]++
+						} else if !plain[a.h] {
+							plain[a.h] = true
 							want[a.h]++
 						}
 					}
@@ -265,7 +271,7 @@ func TestVerif_C44(t *testing.T) {
 						case len(pbs) == 0:
 							bad = append(bad, fmt.Sprintf("lost: blob %s (%v) was accepted but is not in the index written by flush", a.what, a.h.Type))
 						case len(pbs) > want[a.h]:
-							bad = append(bad, fmt.Sprintf("duplicate: blob %s has %d index entries but was saved %d time(s)", a.what, len(pbs), want[a.h]))
+							bad = append(bad, fmt.Sprintf("duplicate: blob %s has %d index entries, at most %d allowed (one for all plain saves, one per storeDuplicate save)", a.what, len(pbs), want[a.h]))
 						}
 						for _, pb := range pbs {
 							if _, ok := final[gatebe.FileKey{Type: backend.PackFile, Name: pb.PackID().String()}]; !ok {
